@@ -268,7 +268,7 @@ def build_bytes_from_sse(event: ServerSentEvent, charset: str) -> bytes:
     if "data" in event:
         # An event stream only knows CR, LF and CRLF as line terminators;
         # str.splitlines() would also split at U+2028, U+0085, VT, FF...
-        lines = re.split(r"\r\n|\r|\n", event.pop("data"))
+        lines = re.split(r"\r\n|\r|\n", event["data"])
         if lines[-1] == "":
             lines.pop()
         data = (f"data: {_}".encode(charset) for _ in lines)
@@ -276,7 +276,8 @@ def build_bytes_from_sse(event: ServerSentEvent, charset: str) -> bytes:
         data = ()
     return b"\n".join(
         chain(
-            map(lambda k, v: f"{k}: {v}".encode(charset), event.keys(), event.values()),
+            # Do not modify the dict yielded by the user: it may be yielded again.
+            (f"{k}: {v}".encode(charset) for k, v in event.items() if k != "data"),
             data,
             (b"", b""),  # for generate b"\n\n"
         )
